@@ -197,6 +197,17 @@ ExtraGapFrom(ex, e, armed) ==
   ELSE HashAfterNLFrom(ex[e], 1, armed) \/ ExtraGapFrom(ex, e + 1, ArmAfter(ex[e], 1, armed))
 SMExtraGap(o) == \E j \in DOMAIN o.charts : ExtraGapFrom(o.charts[j].extra, 1, TRUE)
 
+(* The same gap through the serializer's own line break between parameters: every parameter but   *)
+(* the first of the text is written after a line break, so a key that contains no ordinary          *)
+(* character (empty, or made of ':', ';', '\' only - those are written as escapes) leaves the       *)
+(* tokenizer "after a line break", and a value beginning with '#' then starts a new parameter.       *)
+(* Known finding (dependency); found by TLC at symbol length 4 of MC_Load ('#:#NOTEDATA...').        *)
+ItemCtxGap(e, afterNL) == ~IsNone(e.v) /\ HashAfterNLFrom(e.v, 1, ArmAfter(e.k, 1, afterNL))
+ItemsCtxGap(items, firstAfterNL) == \E i \in DOMAIN items : ItemCtxGap(items[i], i > 1 \/ firstAfterNL)
+ObjCtxGap(o, fmt) ==
+  \/ ItemsCtxGap(o.items, FALSE)
+  \/ fmt = "ssc" /\ \E j \in DOMAIN o.charts : ItemsCtxGap(o.charts[j], TRUE)
+
 SSCObjInGap(o) ==
   \/ \E i \in DOMAIN o.items : KeyInGap(o.items[i].k) \/ ValueInGap(o.items[i].v)
   \/ \E j \in DOMAIN o.charts : \E i \in DOMAIN o.charts[j] :
